@@ -492,10 +492,11 @@ impl S3 for FileSystem {
         });
 
         let size = copy_bytes(stream, file_writer.writer()).await?;
-        file_writer.done().await?;
 
         let md5_sum = hex(md5_hash.finalize());
 
+        // verify the checksums before the object becomes visible:
+        // a rejected upload must leave the previous content untouched
         let checksum = checksum.finalize();
         if checksum.checksum_crc32 != input.checksum_crc32 {
             return Err(s3_error!(BadDigest, "checksum_crc32 mismatch"));
@@ -509,6 +510,8 @@ impl S3 for FileSystem {
         if checksum.checksum_sha256 != input.checksum_sha256 {
             return Err(s3_error!(BadDigest, "checksum_sha256 mismatch"));
         }
+
+        file_writer.done().await?;
 
         debug!(path = %object_path.display(), ?size, %md5_sum, ?checksum, "write file");
 
